@@ -513,7 +513,7 @@ def form_case(ctx, label, form):
     mkw = {"settings": [[k, str(v)] for k, v in st.items() if v not in (None, "")]}
     # the harness's own reading of what shapes the meta block
     meta_cfg = {
-        "audit": any(r.get("type") == "audit" for r in form["survey"]),
+        "audit": sum(1 for r in form["survey"] if r.get("type") == "audit"),
         "omit_instanceID": str(st.get("omit_instanceID", "")).lower() in ("yes", "true"),
         "instance_name": bool(st.get("instance_name")),
     }
